@@ -137,6 +137,8 @@ func ParseSelect(statement *sqlparser.Select) (logical.Node, *OutputOptions, err
 		}
 
 		outputExprs := make([]logical.Expression, len(isAggregate))
+		outputAliases := make([]string, len(isAggregate))
+		keyNamed := make([]bool, len(key))
 		var nonKeyAggregates []string
 		var aggregateExprs []logical.Expression
 		var aggregateFieldNames []string
@@ -168,6 +170,14 @@ func ParseSelect(statement *sqlparser.Select) (logical.Node, *OutputOptions, err
 				aggregateFieldNames = append(aggregateFieldNames, name)
 				outputExprs[i] = logical.NewVariable(name)
 			} else {
+				if keyNamed[keyPart[i]] {
+					// This key is already in the select list: refer to the field it got there
+					// (naming the key field again would leave the earlier reference dangling).
+					outputExprs[i] = logical.NewVariable(keyFieldNames[keyPart[i]])
+					outputAliases[i] = aliases[i]
+					continue
+				}
+				keyNamed[keyPart[i]] = true
 				var name string
 				if aliases[i] != "" {
 					name = getUniqueName(aliases[i])
@@ -182,7 +192,7 @@ func ParseSelect(statement *sqlparser.Select) (logical.Node, *OutputOptions, err
 		}
 
 		root = logical.NewGroupBy(root, key, keyFieldNames, aggregateExprs, nonKeyAggregates, aggregateFieldNames, triggers)
-		root = logical.NewMap(outputExprs, make([]string, len(outputExprs)), make([]string, len(outputExprs)), make([]bool, len(outputExprs)), make([]logical.Expression, len(outputExprs)), make([]bool, len(outputExprs)), root)
+		root = logical.NewMap(outputExprs, outputAliases, make([]string, len(outputExprs)), make([]bool, len(outputExprs)), make([]logical.Expression, len(outputExprs)), make([]bool, len(outputExprs)), root)
 	} else {
 		expressions := make([]logical.Expression, len(statement.SelectExprs))
 		starQualifiers := make([]string, len(statement.SelectExprs))
